@@ -1,2 +1,5 @@
 import Proofs.GenWordOps
 import Proofs.GenTables
+import Proofs.Basic
+import Proofs.Round
+import Proofs.RoundSpec
